@@ -111,7 +111,7 @@ func newAggSession(env *Env, prop string) (*aggSession, error) {
 		s.corrListed[name] = true
 	}
 	ap, err := intermediate.InitAggregationProcess(intermediate.AggregationInput{
-		MessageChan: s.msgCh, WorkerNum: 2, CorrelateFields: corr, AggregateElements: aggElements(),
+		MessageChan: s.msgCh, WorkerNum: int(cfgOr(pl, "workers", 2)), CorrelateFields: corr, AggregateElements: aggElements(),
 		ActiveExpiryTimeout: active, InactiveExpiryTimeout: inactive,
 	})
 	if err != nil {
@@ -284,7 +284,11 @@ func (s *aggSession) buildElements(r aggRec, v6 bool) []entities.InfoElementWith
 	if v6 {
 		els = append(els, entities.NewIPAddressInfoElement(ie("destinationClusterIPv6", A), net.ParseIP(c["destinationClusterIP"])))
 	} else {
-		els = append(els, entities.NewIPAddressInfoElement(ie("destinationClusterIPv4", A), net.ParseIP(c["destinationClusterIP"]).To4()))
+		ip4 := net.ParseIP(c["destinationClusterIP"])
+		if r.Layout != 1 {
+			ip4 = ip4.To4() // an application may hand an IPv4 address in its 4-byte or in its 16-byte form
+		}
+		els = append(els, entities.NewIPAddressInfoElement(ie("destinationClusterIPv4", A), ip4))
 	}
 	els = append(els,
 		entities.NewUnsigned16InfoElement(ie("destinationServicePort", A), uint16(atoi(c["destinationServicePort"]))),
